@@ -504,3 +504,42 @@ Lemma clip_request_examples :
   clip_request 20 10 20 3 5 4 = None /\ clip_request 20 10 30000 3 5 5 = None /\
   clip_request 20 10 19 9 100 100 = Some (19, 9, 1, 1) /\ clip_request 20 10 0 0 20 10 = Some (0, 0, 20, 10).
 Proof. repeat split; reflexivity. Qed.
+
+(* ---- F21 repaired (2d15d75): the extended-clipboard capability follows the latest SetEncodings ---- *)
+Lemma apply_enc_extclip : forall g c e,
+  c_extclip (fst (apply_enc g c e)) = true -> c_extclip c = true \/ e = enc_ExtendedClipboard.
+Proof.
+  intros g c e. unfold apply_enc.
+  repeat match goal with
+         | |- context [if ?b then _ else _] => destruct b eqn:?
+         end; cbn; eqb_all; subst; auto.
+Qed.
+
+Lemma apply_encs_extclip : forall g l c,
+  c_extclip (fst (apply_encs g c l)) = true -> c_extclip c = true \/ In enc_ExtendedClipboard l.
+Proof.
+  intros g. induction l as [|e t IH]; intros c H; cbn [apply_encs] in H; [left; exact H|].
+  destruct (apply_enc g c e) as [c1 i1] eqn:E1. destruct (apply_encs g c1 t) as [c2 i2] eqn:E2. cbn [fst] in H.
+  pose proof (IH c1) as P. rewrite E2 in P. cbn [fst] in P. destruct (P H) as [Q|Q].
+  - pose proof (apply_enc_extclip g c e) as R. rewrite E1 in R. cbn [fst] in R.
+    destruct (R Q); [left; assumption|right; left; congruence].
+  - right. right. exact Q.
+Qed.
+
+Lemma set_encodings_extclip : forall g c l, g_reset_extclip g = true ->
+  c_extclip (fst (set_encodings g c l)) = true -> In enc_ExtendedClipboard l.
+Proof.
+  intros g c l Hg. unfold set_encodings.
+  pose proof (apply_encs_extclip g l (reset_caps g c)) as P.
+  destruct (apply_encs g (reset_caps g c) l) as [c1 out]. cbn [fst] in *.
+  set (c2 := if c_pref c1 =? -1 then if c_pref c =? -1 then set_pref c1 enc_Raw else set_pref c1 (c_pref c) else c1).
+  assert (E2 : c_extclip c2 = c_extclip c1).
+  { unfold c2. destruct (c_pref c1 =? -1); [destruct (c_pref c =? -1)|]; reflexivity. }
+  assert (E3 : c_extclip (if c_cursorpos c2 && negb (c_cursorshape c2) then set_cursorpos c2 false else c2) = c_extclip c2).
+  { destruct (c_cursorpos c2 && negb (c_cursorshape c2)); reflexivity. }
+  cbn [c_extclip set_named]. intro H.
+  change (c_extclip (set_named (if c_cursorpos c2 && negb (c_cursorshape c2) then set_cursorpos c2 false else c2) (l ++ c_named c)))
+    with (c_extclip (if c_cursorpos c2 && negb (c_cursorshape c2) then set_cursorpos c2 false else c2)) in H.
+  rewrite E3, E2 in H. destruct (P H) as [Q|Q]; [|exact Q].
+  unfold reset_caps in Q. cbn [c_extclip] in Q. rewrite Hg in Q. discriminate.
+Qed.
